@@ -15,7 +15,7 @@ judge: the spec predicates of Spec/ValueTables (exact shares, ±1 on the 10000 s
 -/
 namespace PolyVerif.Driver.C18
 open PolyVerif PolyVerif.Codon PolyVerif.CodonTables
-open PolyVerif.Spec.ValueTables (isSumOf isCompromiseOf sameWeights sameCode WFCode posTotals nonNeg notRare chunks3 pairs reweight)
+open PolyVerif.Spec.ValueTables (isSumOf isCompromiseOf sameWeights sameCode WFCode posTotals nonNeg notRare encodable chunks3 pairs reweight)
 
 def render (f : List String) : List String :=
   match f with
@@ -56,15 +56,30 @@ def operandOk (src : String) (t : Table) : Bool :=
   | "raw" :: rest => t == parseTable (":".intercalate rest)
   | _ => false
 
-def letterOf (t : Table) (x : Str) : Option Str := ((pairs t).find? fun p => p.2 == x).map (·.1)
+/-- the values `int(10000·c)` can take in float64 for the real number `q = c`: `⌊10000q⌋`, and also the next
+integer when `10000q` is not an integer but within float rounding distance (≤ 2·10⁻¹²; 10⁻⁹ is used) below it -/
+def cutCands (q : Rat) : List Int :=
+  let x := 10000 * q
+  let cw := x.floor
+  if x == (cw : Rat) then [cw] else if ((cw + 1 : Int) : Rat) - x < (1 : Rat) / 1000000000 then [cw, cw + 1] else [cw]
 
 structure CutVerdict where
   corr : Bool
   pass : Bool
+  inRange : Bool
   tag : String
   detail : String
 
-def judgeCut (t1 t2 : Table) (inDom : Bool) (bits : String) (o12 o21 oopt : String) : CutVerdict :=
+/-- the Optimize clause on the real codon.Optimize reply `oopt` for protein `p` and compromise table `r12` -/
+def optimizeOk (cws : List Int) (t1 t2 r12 : Table) (p : Str) (oopt : String) : Bool :=
+  let canEncode := p.all fun aa => encodable r12 [aa]
+  if oopt.startsWith "S" then
+    let cs := chunks3 (oopt.drop 1).toString.toList
+    canEncode && cs.length == p.length && (oopt.length - 1) == 3 * p.length &&
+      (p.zip cs).all fun ac => (pairs t1).contains ([ac.1], ac.2) && notRare cws t1 t2 [ac.1] ac.2
+  else oopt == "err" && !canEncode     -- an error is right only when some residue has no eligible codon
+
+def judgeCut (t1 t2 : Table) (inDom : Bool) (protein : Str) (bits : String) (o12 o21 oopt : String) : CutVerdict :=
   let c := Float.ofBits (UInt64.ofNat (natOfStr bits))
   let m12 := resOfOutcome (compromise floatArith t1 t2 c)
   let m21 := resOfOutcome (compromise floatArith t2 t1 c)
@@ -72,26 +87,24 @@ def judgeCut (t1 t2 : Table) (inDom : Bool) (bits : String) (o12 o21 oopt : Stri
   let i21 := parseRes o21
   let corr := i12 == m12 && i21 == m21
   match ratOfBits (natOfStr bits) with
-  | none => { corr, pass := true, tag := "nonreal", detail := if corr then "" else showRes m12 ++ " | " ++ showRes m21 }
+  | none => { corr, pass := true, inRange := true, tag := "nonreal", detail := if corr then "" else showRes m12 ++ " | " ++ showRes m21 }
   | some q =>
     let x12 := resOfOutcome (compromise exactArith t1 t2 q)
     let fx := if i12 == x12 then "" else "fx"
+    let outOfRange := q < 0 || q > 1
     let pass :=
-      if q < 0 || q > 1 then i12 == .err && i21 == .err          -- compromise_rejects
+      if outOfRange then i12 == .err && i21 == .err          -- compromise_rejects: whatever the tables
       else if !inDom then true
       else
-        let cw := (10000 * q).floor
+        let cws := cutCands q
         match i12, i21 with
         | .table r12, .table r21 =>
-          isCompromiseOf 1 cw (cw + 1) t1 t2 r12 && isCompromiseOf 1 cw (cw + 1) t2 t1 r21 && sameWeights r12 r21 &&
-          (if oopt.startsWith "S" then
-             (chunks3 (oopt.drop 1).toString.toList).all fun x => match letterOf t1 x with
-               | some l => notRare 1 cw t1 t2 l x
-               | none => false
-           else oopt == "err")
+          isCompromiseOf cws t1 t2 r12 && isCompromiseOf cws t2 t1 r21 && sameWeights r12 r21 &&
+          optimizeOk cws t1 t2 r12 protein oopt
         | _, _ => false
-    { corr, pass,
-      tag := (if q < 0 then "neg" else if q > 1 then "big" else if q == 0 then "zero" else if q == 1 then "one" else "mid") ++ fx,
+    { corr, pass, inRange := !outOfRange,
+      tag := (if q < 0 then "neg" else if q > 1 then "big" else if q == 0 then "zero" else if q == 1 then "one" else "mid") ++ fx
+        ++ (if !outOfRange && inDom then (if oopt.startsWith "S" then "+opt" else "+nopt") else ""),
       detail := if corr && pass then "" else "cut " ++ bits ++ " float model: " ++ showRes m12 ++ " | " ++ showRes m21 }
 
 def triples : List String → List (String × String × String)
@@ -100,7 +113,7 @@ def triples : List String → List (String × String × String)
 
 def judge (f out : List String) : Verdict :=
   match f with
-  | ["pair", s1, s2, cuts, _protein] =>
+  | ["pair", s1, s2, cuts, protein] =>
     match out with
     | "ok" :: o1 :: o2 :: a12 :: a21 :: rest =>
       let t1 := parseTable o1
@@ -117,17 +130,24 @@ def judge (f out : List String) : Verdict :=
       let addPass := !inDom || (match ia12, ia21 with
         | .table r12, .table r21 => isSumOf t1 t2 r12 && isSumOf t2 t1 r21 && sameWeights r12 r21
         | _, _ => false)
-      let cvs := (cutl.zip (triples rest)).map fun p => judgeCut t1 t2 inDom p.1 p.2.1 p.2.2.1 p.2.2.2
+      let cvs := (cutl.zip (triples rest)).map fun p => judgeCut t1 t2 inDom protein.toList p.1 p.2.1 p.2.2.1 p.2.2.2
       let corr := shapeOk && opsOk && addCorr && cvs.all (·.corr)
       let pass := shapeOk && addPass && cvs.all (·.pass)
-      let anyReal := inDom || cvs.any fun v => v.tag.startsWith "neg" || v.tag.startsWith "big"
-      let sameId := match s1.splitOn ":", s2.splitOn ":" with
-        | "id" :: a :: _, "id" :: b :: _ => a == b
-        | _, _ => false
+      -- a pair outside the property's quantifier is judged only when ALL its cut-offs are out of range
+      -- (the rejection clause holds for any tables); otherwise it is correspondence drift only
+      let rejectOnly := cvs.all fun v => !v.inRange
+      let judged := inDom || rejectOnly
       let nanTag := if !posTotals t1 || !posTotals t2 then "/nan" else ""
+      let difId := match s1.splitOn ":", s2.splitOn ":" with
+        | "id" :: a :: _, "id" :: b :: _ => if a == b then "/same-id" else "/ids-" ++ a ++ "-" ++ b
+        | _, _ => "/raw"
+      let orderTag := if (t1.aminoAcids.map (·.letter)) == (t2.aminoAcids.map (·.letter)) then "" else "/reordered"
+      let ssTag := if t1.startCodons == t2.startCodons && t1.stopCodons == t2.stopCodons then "" else "/startstop-differ"
       let tags := (cvs.map (·.tag)).eraseDups
-      { corr, judge := if anyReal then some pass else none,
-        cls := (if inDom then "pair/indomain" else if sameId then "pair/same-id-degenerate" else "pair/other") ++ nanTag ++
+      { corr, judge := if judged then some pass else none,
+        cls := (if inDom then "pair/indomain" ++ (if difId.startsWith "/ids" then "/two-ids" else difId) ++ orderTag ++ ssTag
+                else if rejectOnly then "triv:pair/outside/reject-only" ++ nanTag
+                else "triv:pair/outside" ++ nanTag) ++
                "/" ++ ",".intercalate tags,
         detail := if corr && pass then "" else
           (if !opsOk then "operands differ from re-weighted regenerated tables; " else "") ++
